@@ -377,3 +377,98 @@ func isIfaceType(t types.Type) bool {
 	_, ok := t.Underlying().(*types.Interface)
 	return ok
 }
+
+// ---------------------------------------------------------------------------------------------
+// R11.18 / R16.13 — the stored record of an annotation is read, merged and written back in one critical section
+
+func init() {
+	reg := func(id, prop string) {
+		register(ruleDef{ID: id, Prop: prop, Tier: "quick", Floor: 1,
+			Title: "an annotation update is one critical section: where neuronjson reads the stored record of a body, merges the posted fields and writes it back (and mirrors it in memory), a mutex of the instance is write-held from the read to the write, and deletion takes the same mutex",
+			Fn:    ruleRecordUpdateSerialised})
+	}
+	reg("R11.18", "C11")
+	reg("R16.13", "C16")
+}
+
+func ruleRecordUpdateSerialised(r *Run) {
+	w := r.W
+	n := 0
+	var updKeys []string
+	for _, f := range w.RepoFuncs {
+		if relPkg(pkgPathOf(f)) != "datatype/neuronjson" || len(f.Blocks) == 0 || f.Parent() != nil || strings.HasSuffix(w.fposFile(f), "_test.go") {
+			continue
+		}
+		var get, put ssa.Instruction
+		for _, c := range calls(f) {
+			switch callName(c) {
+			case "getStoreData":
+				if get == nil {
+					get = c
+				}
+			case "putStoreData":
+				put = c
+			}
+		}
+		if get == nil || put == nil {
+			continue
+		}
+		n++
+		// a mutex write-held at both, by the same acquisition
+		ok := false
+		for _, b := range f.Blocks {
+			for _, in := range b.Instrs {
+				op, isOp := asLockOp(in)
+				if !isOp || !op.lock || !op.write {
+					continue
+				}
+				h1, w1 := heldKeyAt(f, get, op.key)
+				h2, w2 := heldKeyAt(f, put, op.key)
+				if h1 && w1 && h2 && w2 {
+					// not released in between: no unlock of that key on a path get → put
+					rel := func(x ssa.Instruction) bool {
+						o2, ok2 := asLockOp(x)
+						return ok2 && !o2.lock && o2.key == op.key
+					}
+					if first := findFirst(f, rel); first == nil || findPath(f, get, func(x ssa.Instruction) bool { return x == put }, rel, allEdges) == nil {
+						ok = true
+						updKeys = append(updKeys, op.name)
+					}
+				}
+			}
+		}
+		r.check(ok, fname(f)+":record-read-merge-write:one-critical-section", "a mutex is write-held from getStoreData to putStoreData",
+			"the stored record is read, merged with the posted fields and written back without a lock that spans the three steps: two updates of one body at once both start from the old record and the fields of one of them are lost (in the store, in memory, or differently in each)", w.pos(get.Pos()))
+	}
+	// deletion takes the same mutex
+	del := w.method("datatype/neuronjson", "Data", "DeleteData")
+	if del != nil && len(updKeys) > 0 {
+		same := false
+		for _, b := range del.Blocks {
+			for _, in := range b.Instrs {
+				if op, ok := asLockOp(in); ok && op.lock && op.write {
+					for _, k := range updKeys {
+						if op.name == k {
+							same = true
+						}
+					}
+				}
+			}
+		}
+		r.check(same, "neuronjson.DeleteData:takes-the-update-mutex", "a deletion cannot land in the middle of an update of the same annotation",
+			"DeleteData does not take the mutex that serialises updates: a delete between an update's read and its write is undone by the write", w.fpos(del))
+	}
+	r.check(n >= 1, "neuronjson:record-updates", fmt.Sprintf("%d read-merge-write functions", n), "none found: rule needs review", "-")
+}
+
+// findFirst: the first instruction (in block order) satisfying pred, or nil.
+func findFirst(f *ssa.Function, pred func(ssa.Instruction) bool) ssa.Instruction {
+	for _, b := range f.Blocks {
+		for _, in := range b.Instrs {
+			if pred(in) {
+				return in
+			}
+		}
+	}
+	return nil
+}
